@@ -7,6 +7,7 @@ package main
 import (
 	"fmt"
 	"io"
+	"reflect"
 	"runtime"
 	"strings"
 
@@ -30,17 +31,48 @@ func mkDec(kind, arg int) int { return kind + 8*arg }
 
 type simErrPtr struct{ id int }
 
-func (e *simErrPtr) Error() string { return fmt.Sprintf("sim pointer error %d", e.id) }
+func (e *simErrPtr) Error() string {
+	if e == nil {
+		return "sim typed-nil pointer error"
+	}
+	return fmt.Sprintf("sim pointer error %d", e.id)
+}
+
+// error values whose dynamic type is not comparable / not hashable, and a typed nil pointer
+type simErrSlice []string
+
+func (e simErrSlice) Error() string { return "sim slice error" }
+
+type simErrMap map[string]int
+
+func (e simErrMap) Error() string { return "sim map error" }
+
+type simErrFunc func() string
+
+func (e simErrFunc) Error() string { return "sim func error" }
+
+// sameErr is identity of error values: Go == where the dynamic type is comparable,
+// the same underlying pointer where it is not (== would panic there).
+func sameErr(a, b error) (same bool) {
+	defer func() {
+		if recover() != nil {
+			va, vb := reflect.ValueOf(a), reflect.ValueOf(b)
+			same = va.Type() == vb.Type() && va.Pointer() == vb.Pointer() && (va.Kind() != reflect.Slice || va.Len() == vb.Len())
+		}
+	}()
+	return a == b
+}
 
 type simErrVal struct{ id int }
 
 func (e simErrVal) Error() string { return fmt.Sprintf("sim value error %d", e.id) }
 
 // nErrKinds error values a simulated handler can return: three of the simulator's own
-// (pointer sentinel, comparable struct value, io.EOF) and thirteen that real handlers
+// (pointer sentinel, comparable struct value, io.EOF), thirteen that real handlers
 // return all the time - the library's own error values, obtained by calling the library
-// on broken input and passing the error on.
-const nErrKinds = 16
+// on broken input and passing the error on - three whose dynamic type is not comparable
+// (slice, map, func) and a typed nil pointer inside a non-nil error interface.
+const nErrKinds = 20
 
 // libErrs is built once at program start: tasks of C18 stage B run handlers
 // concurrently, so nothing in the harness may be initialised lazily.
@@ -85,7 +117,8 @@ func buildLibErrs() []error {
 
 func allSimErrors() []error {
 	out := []error{&simErrPtr{1}, simErrVal{2}, io.EOF}
-	return append(out, libErrs...)
+	out = append(out, libErrs...)
+	return append(out, simErrSlice{"a", "b"}, simErrMap{"k": 1}, simErrFunc(func() string { return "f" }), (*simErrPtr)(nil))
 }
 
 // CB is one recorded callback (or the result of a re-entrant call made from one).
@@ -124,6 +157,8 @@ type hEnv struct {
 	level  int
 	quiet  bool // do not record fault counters (second run of a twin pair)
 	errLvl int
+	// structH: hand the library a struct that implements the handler interface instead of a HandlerFunc adapter
+	structH bool
 	// set when a callback returned an offset outside its data for a member whose offset the library consumes
 	oob      map[int]bool
 	oobMiss  string // non-empty: a traversal succeeded although such an offset was returned
@@ -163,7 +198,30 @@ func (e *hEnv) bufFor(mode int) *rjson.Buffer {
 }
 
 // hostileOffset is the catalogue of offsets a misbehaving handler returns.
+const nHostile = 40
+
 func hostileOffset(idx, lenData, exact, start int) int {
+	idx %= nHostile
+	if idx >= 24 {
+		// small negative offsets: a range check done in unsigned arithmetic, or on the resume
+		// position instead of the offset, lets exactly these through
+		switch idx {
+		case 24, 25, 26, 27, 28, 29, 30, 31, 32, 33:
+			return -(idx - 22) // -2 .. -11
+		case 34:
+			return -start
+		case 35:
+			return 1 - start
+		case 36:
+			return -start - 1
+		case 37:
+			return 2 - start
+		case 38:
+			return -exact
+		default:
+			return -lenData
+		}
+	}
 	switch idx % 24 {
 	case 0:
 		return -1
@@ -368,7 +426,7 @@ func (e *hEnv) handle(doc, key []byte, hasKey bool, data []byte, count *int) (in
 			delete(e.oob, e.level+1)
 		}
 		if e.thrown >= 0 {
-			if ierr == nil || ierr != e.errs[e.thrown] {
+			if ierr == nil || !sameErr(ierr, e.errs[e.thrown]) {
 				e.propFail = fmt.Sprintf("nested traversal at level %d returned %v instead of the injected error", e.level+1, ierr)
 			}
 			rec.Err = e.thrown
@@ -459,7 +517,7 @@ func (e *hEnv) reenter(doc, data []byte, arg int) {
 		// an error injected at the inner level is swallowed here: the outer
 		// traversal goes on, which is what a real handler may do
 		if thrownBefore < 0 && e.thrown >= 0 {
-			if err == nil || err != e.errs[e.thrown] {
+			if err == nil || !sameErr(err, e.errs[e.thrown]) {
 				e.propFail = fmt.Sprintf("re-entrant traversal at level %d returned %v instead of the injected error", e.level+1, err)
 			}
 			e.thrown, e.errLvl = -1, -1
@@ -552,18 +610,23 @@ func (e *hEnv) traverse(kind string, doc []byte) (out Outcome) {
 	cnt := 0
 	var p int
 	var err error
-	if kind == "arr" {
+	switch {
+	case e.structH && kind == "arr":
+		p, err = rjson.HandleArrayValues(doc, &structHandler{e: e, doc: doc, cnt: &cnt}, e.bufFor(0))
+	case e.structH:
+		p, err = rjson.HandleObjectValues(doc, &structHandler{e: e, doc: doc, cnt: &cnt}, e.bufFor(0))
+	case kind == "arr":
 		p, err = rjson.HandleArrayValues(doc, rjson.ArrayValueHandlerFunc(func(d []byte) (int, error) {
 			return e.handle(doc, nil, false, d, &cnt)
 		}), e.bufFor(0))
-	} else {
+	default:
 		p, err = rjson.HandleObjectValues(doc, rjson.ObjectValueHandlerFunc(func(k, d []byte) (int, error) {
 			return e.handle(doc, k, true, d, &cnt)
 		}), e.bufFor(0))
 	}
 	out.OK = err == nil
 	out.P = p
-	if err != nil && e.thrown >= 0 && e.errs != nil && err == e.errs[e.thrown] {
+	if err != nil && e.thrown >= 0 && e.errs != nil && sameErr(err, e.errs[e.thrown]) {
 		out.ErrIdx = e.thrown
 	}
 	out.CBs = e.cbs
@@ -572,6 +635,21 @@ func (e *hEnv) traverse(kind string, doc []byte) (out Outcome) {
 		e.oobMiss = "top-level traversal succeeded"
 	}
 	return out
+}
+
+// structHandler implements both handler interfaces directly (no HandlerFunc adapter in between).
+type structHandler struct {
+	e   *hEnv
+	doc []byte
+	cnt *int
+}
+
+func (s *structHandler) HandleArrayValue(d []byte) (int, error) {
+	return s.e.handle(s.doc, nil, false, d, s.cnt)
+}
+
+func (s *structHandler) HandleObjectValue(k, d []byte) (int, error) {
+	return s.e.handle(s.doc, k, true, d, s.cnt)
 }
 
 func diffCBs(a, b []CB) string {
